@@ -3,6 +3,7 @@
 package harness
 
 import (
+	"github.com/theory/sqljson/path"
 	"github.com/theory/sqljson/path/exec"
 	"harness/nd"
 )
@@ -31,6 +32,14 @@ func C08_Pool() {
 			}
 		case eSupp:
 			nd.Assert(berr == nil, tag+"/Query/suppressible-error-not-suppressed")
+			if berr == nil {
+				// the items found before the failure: the partial result of the
+				// stateless depth-first reference
+				want, ok := itemsBeforeFailure(p, doc, vars)
+				if ok {
+					nd.Assert(sameSeq(b, want, false), tag+"/Query/silent-items-differ-from-items-before-failure")
+				}
+			}
 		case eHard:
 			nd.Assert(berr != nil && hardErr(berr), tag+"/Query/hard-error-suppressed")
 		}
@@ -46,6 +55,16 @@ func C08_Pool() {
 			}
 		case eSupp:
 			nd.Assert(berr == nil, tag+"/First/suppressible-error-not-suppressed")
+			if berr == nil {
+				want, ok := itemsBeforeFailure(p, doc, vars)
+				if ok {
+					if len(want) == 0 {
+						nd.Assert(b == nil, tag+"/First/silent-item-though-none-before-failure")
+					} else {
+						nd.Assert(sameItem(b, want[0]), tag+"/First/silent-item-differs-from-first-before-failure")
+					}
+				}
+			}
 		case eHard:
 			nd.Assert(berr != nil && hardErr(berr), tag+"/First/hard-error-suppressed")
 		}
@@ -74,6 +93,24 @@ func C08_Pool() {
 			nd.Assert(berr != nil && hardErr(berr), tag+"/Match/hard-error-suppressed")
 		}
 	}
+}
+
+// itemsBeforeFailure: the partial result of the stateless depth-first
+// reference evaluator when it fails with a suppressible error. ok is false
+// where the reference leaves the result open, where object member order
+// decides which items come before the failure, and on the inputs touched by
+// the known finding C14/null-element-dropped (reported there, not here).
+func itemsBeforeFailure(p *path.Path, doc any, vars exec.Vars) ([]any, bool) {
+	want, werr, open, perm := refQuery(p.AST, doc, vars)
+	if open || perm || werr != eSupp {
+		return nil, false
+	}
+	w2, e2, _, _ := refQueryOpt(p.AST, doc, vars, true)
+	if e2 != werr || !sameSeq(want, w2, false) {
+		nd.Cover("C08/items-before-failure/known-finding-input")
+		return nil, false
+	}
+	return want, true
 }
 
 var leakPaths = []string{
